@@ -44,6 +44,20 @@ CLAIMED["C17"] = dict(
     design="§4 C17",
 )
 
+CLAIMED["C04"] = dict(
+    text="Lean 4 theorem C04_items: for every chain of REUSE.toml levels of any depth, every own information and every "
+         "item, the model of NestedReuseTOML.reuse_info_of + Project.reuse_info_of (loop with break, reversed two-flag CLOSEST "
+         "clean-up, assembly with its special case) attributes the item to a source iff the declarative specification does "
+         "(override hides file and deeper levels, aggregate adds, closest supplies per attribute from the nearest provider); "
+         "plus C04_last_wins / C04_no_match / C04_override_hides / C04_sibling. Tied to the code by real trees on disk "
+         "through Project.reuse_info_of, enumerated completely at depth <=2 and sampled at depth 3-4, and dep5 projects.",
+    note="Trusted: Lean kernel, harness; glob matching is a parameter (C05) and reading the own source is generator ground "
+         "truth (C02). Source path and source kind of every reported item are checked by the correspondence, the "
+         "model abstracts them to 'level n' / 'own source'.",
+    technique="Lean 4 proof (model = membership specification, any chain depth) + exhaustive real-tree differential",
+    design="§4 C04",
+)
+
 NOT_YET = {}
 
 
